@@ -164,6 +164,11 @@ class Value:
             return getattr(self.p, 'addr', 0x1000 + (id(self.p) % 0xfffff) * 16) if self.kind == 'ptr' else 0x7000
         raise TypeError('int() of ' + self.kind)
 
+    def __str__(self):
+        if self.kind == 'int':
+            return str(self.p)
+        return '<fake gdb.Value %s>' % self.kind
+
     def string(self):
         assert self.kind == 'cstr' and self.p is not None, 'string() of ' + self.kind
         return self.p
